@@ -362,13 +362,17 @@ N1s:   return;
     };
 N2: processing[n_i][n_s] := TRUE;
     running[n_i][n_s] := TRUE;
-    if (IsB) { active[n_i][n_s] := EntryActive(n_i, n_s, n_named, n_occ.t); };
+    if (IsB) { active[n_i][n_s] := EntryActive(n_i, n_s, n_named, n_occ.t); }
+    else if (Len(n_named) # NReg(n_s) /\ ~UseHist(n_s, n_occ.t)) {
+       \* backmp11 without (matching) history: events pending from the previous activation are dropped before the machine's own entry
+       \* behaviour runs; events raised by the entry behaviours of this activation are kept
+       dropped[n_i] := dropped[n_i] \cup PoolPayloads(pool[n_i][n_s]); pool[n_i][n_s] := <<>>;
+    };
     call Callback("en", n_i, n_m, n_s, n_occ, -1);
 N3: if (exc) { processing[n_i][n_s] := FALSE; return; }     \* the flag is reset when an entry behaviour throws
     else {
        if (IsM) {
           active[n_i][n_s] := EntryActive(n_i, n_s, n_named, n_occ.t);
-          if (Len(n_named) # NReg(n_s) /\ ~UseHist(n_s, n_occ.t)) { dropped[n_i] := dropped[n_i] \cup PoolPayloads(pool[n_i][n_s]); pool[n_i][n_s] := <<>>; };
        };
     };
 N4: while (n_r <= NReg(n_s)) {
@@ -629,10 +633,10 @@ procedure StartRoot(s_i)
 {
 S0: if (IsB) { active[s_i][Def.root] := MD(Def.root).init; };   \* backmp11 sets the ids only after the machine's own on_entry
     running[s_i][Def.root] := TRUE; processing[s_i][Def.root] := TRUE;   \* events raised by the initial entries are queued
+    if (IsM /\ ~UseHist(Def.root, "start")) { dropped[s_i] := dropped[s_i] \cup PoolPayloads(pool[s_i][Def.root]); pool[s_i][Def.root] := <<>>; };
 S1: call Callback("en", s_i, Def.root, Def.root, StartOcc, -1);
 S2: if (IsM) {
        active[s_i][Def.root] := EntryActive(s_i, Def.root, <<>>, "start");
-       if (~UseHist(Def.root, "start")) { dropped[s_i] := dropped[s_i] \cup PoolPayloads(pool[s_i][Def.root]); pool[s_i][Def.root] := <<>>; };
     };
 S3: while (s_r <= NReg(Def.root)) {
        \* back enters the initial states by type; backmp11 the states the history names
